@@ -464,7 +464,8 @@ func TestC05_MessageIDsUniqueAndIncreasing(t *testing.T) {
 		}
 		issued := map[uint64]bool{}
 		var log []string
-		removals, puts := 0, 0
+		removals, puts, absentReplaces := 0, 0, 0
+		var removed []uint64
 		mk := func(q string) *evmtypes.Message {
 			ref := strings.Split(q, "/")[1]
 			return &evmtypes.Message{TurnstoneID: "compass-1", ChainReferenceID: ref, Assignee: c.Vals[0].Val().String(), AssigneeRemoteAddress: "0x00000000000000000000000000000000000000a1",
@@ -505,6 +506,32 @@ func TestC05_MessageIDsUniqueAndIncreasing(t *testing.T) {
 				}
 				log = append(log, fmt.Sprintf("replace(%d)", old))
 			},
+			// a replace request naming an id that is not (or no longer) in that queue: an id removed earlier, or one that
+			// lives in the other chain's queue. Whatever the answer, no id may be handed out twice or out of order.
+			"replaceAbsent": func(t *rapid.T) {
+				q := rapid.SampledFrom(queues).Draw(t, "queue")
+				var cands []uint64
+				cands = append(cands, removed...)
+				for _, o := range queues {
+					if o != q {
+						cands = append(cands, live[o]...)
+					}
+				}
+				if len(cands) == 0 {
+					t.Skip("no absent id known")
+				}
+				old := rapid.SampledFrom(cands).Draw(t, "id")
+				id, err := c.App.ConsensusKeeper.PutMessageInQueue(ctx, q, mk(q), &consensus.PutOptions{MsgIDToReplace: old})
+				log = append(log, fmt.Sprintf("replaceAbsent(%s,%d)=%v", strings.Split(q, "/")[1], old, err == nil))
+				absentReplaces++
+				if err == nil {
+					if issued[id] || id <= last {
+						t.Fatalf("replace of id %d, which is not in queue %s, stored a message under the already issued id %d (last issued %d)", old, q, id, last)
+					}
+					issued[id], last = true, id
+					live[q] = append(live[q], id)
+				}
+			},
 			"remove": func(t *rapid.T) {
 				q := rapid.SampledFrom(queues).Draw(t, "queue")
 				if len(live[q]) == 0 {
@@ -512,6 +539,7 @@ func TestC05_MessageIDsUniqueAndIncreasing(t *testing.T) {
 				}
 				i := rapid.IntRange(0, len(live[q])-1).Draw(t, "idx")
 				id := live[q][i]
+				removed = append(removed, id)
 				if err := c.App.ConsensusKeeper.DeleteJob(ctx, q, id); err != nil {
 					t.Fatalf("delete: %v", err)
 				}
@@ -539,10 +567,23 @@ func TestC05_MessageIDsUniqueAndIncreasing(t *testing.T) {
 						}
 						seen[m.GetId()] = q
 					}
+					// the queue holds exactly the ids the model has in it (nothing resurrected, nothing lost)
+					want := map[uint64]bool{}
+					for _, id := range live[q] {
+						want[id] = true
+					}
+					if len(ms) != len(want) {
+						t.Fatalf("queue %s holds %d messages, model %d (%v)", q, len(ms), len(want), live[q])
+					}
+					for _, m := range ms {
+						if !want[m.GetId()] {
+							t.Fatalf("queue %s holds id %d which the model does not have there", q, m.GetId())
+						}
+					}
 				}
 			},
 		})
 		trace := strings.Join(log, " ")
-		evid.Case(t.Name(), trace, puts >= 2 && removals >= 1, []string{fmt.Sprintf("puts>=%d", min(puts/2*2, 8))}, func() any { return log })
+		evid.Case(t.Name(), trace, puts >= 2 && removals >= 1, []string{fmt.Sprintf("puts>=%d", min(puts/2*2, 8)), fmt.Sprintf("replaceAbsent=%d", min(absentReplaces, 3))}, func() any { return log })
 	})
 }
